@@ -227,7 +227,10 @@ func (m *CPU) Run(app risc.Application) (int, error) {
 				continue
 			}
 			empty = false
-			eu.Cycle(euReq{cycle, app})
+			resp := eu.Cycle(euReq{cycle, app})
+			if resp.err != nil {
+				return 0, resp.err
+			}
 		}
 		// What the execute units completed still has to be written
 		m.writeBus.Connect(cycle)
